@@ -433,7 +433,7 @@ class FunctionAnalysis(BaseDomain):
 
     def _observe_stmt(self, node, env):
         if isinstance(node, (ast.If, ast.While)):
-            self.eval(node.test, env)
+            self.truthtest(node.test, self.eval(node.test, env))
         elif isinstance(node, (ast.For, ast.AsyncFor)):
             v = self.eval(node.iter, env)
             self.emit('for', node, {'iter': v, 'has_yield': _contains_yield(node.body)})
@@ -589,8 +589,18 @@ class FunctionAnalysis(BaseDomain):
 
     def exec_test(self, e, st):
         env = dict(st)
-        self.eval(e, env)
+        v = self.eval(e, env)
+        self.truthtest(e, v)
         return env
+
+    def truthtest(self, node, v):
+        """`node` is used for its truth value.  For a petl table that means
+        IterContainer.__len__, i.e. a full scan (there is no __bool__)."""
+        if isinstance(node, (ast.Compare, ast.BoolOp, ast.Constant)) or \
+                (isinstance(node, ast.UnaryOp) and isinstance(node.op, ast.Not)):
+            return     # their operands are reported on their own
+        if any(a[0] in ('ARG', 'SELFATTR', 'TABLE', 'DATA', 'SELF') for a in v):
+            self.emit('truthtest', node, {'arg': v})
 
     def enter_for(self, s, st):
         env = dict(st)
@@ -1006,7 +1016,7 @@ class FunctionAnalysis(BaseDomain):
         return v
 
     def ev_IfExp(self, e, env):
-        self.eval(e.test, env)
+        self.truthtest(e.test, self.eval(e.test, env))
         a = self.assume(e.test, env, True)
         b = self.assume(e.test, env, False)
         out = set()
@@ -1023,6 +1033,8 @@ class FunctionAnalysis(BaseDomain):
             if cur is None:
                 break
             val = self.eval(v, cur if cur is env else dict(cur))
+            if i < len(e.values) - 1:
+                self.truthtest(v, val)
             out |= val
             cur = self.assume(v, cur, isinstance(e.op, ast.And))
         return _merge(frozenset(a for a in out)) or VTOP
@@ -1030,6 +1042,7 @@ class FunctionAnalysis(BaseDomain):
     def ev_UnaryOp(self, e, env):
         v = self.eval(e.operand, env)
         if isinstance(e.op, ast.Not):
+            self.truthtest(e.operand, v)
             return VBOOL
         if v <= INTS:
             return VINT
